@@ -536,6 +536,31 @@ func treeInitCache(c *core.Ctx, rule string) {
 				return d + "; unexpected frontier write " + s, false
 			}
 		}
+		// any other write into a 32-hash array (e.g. a "reverse the siblings" loop) must be dead code: the frontier is indexed
+		// by level exactly as the walk fills it
+		var live []string
+		core.Instrs(ll.fn, func(i ssa.Instruction) {
+			st, ok := i.(*ssa.Store)
+			if !ok {
+				return
+			}
+			ia, ok := st.Addr.(*ssa.IndexAddr)
+			if !ok {
+				return
+			}
+			if at, isArr := st.Val.Type().Underlying().(*types.Array); !isArr || at.Len() != 32 {
+				return
+			}
+			if ll.sx.Of(ia.Index).String() == "H" {
+				return
+			}
+			if !deadLoopAtEntry(st.Block()) {
+				live = append(live, ll.sx.Of(ia).String()+" <- "+ll.sx.Of(st.Val).String())
+			}
+		})
+		if len(live) > 0 {
+			return d + fmt.Sprintf("; the frontier is rewritten outside the level walk: %v", live), false
+		}
 		return d + fmt.Sprintf("; frontier writes: %v", all), ok && okS
 	})
 }
@@ -605,4 +630,73 @@ func treeCalcRoot(c *core.Ctx, rule string) {
 	treeObl(c, rule, "", "CalculateRoot", func(ll *levelLoop) (string, bool) {
 		return ll.builderStep("github.com/ethereum/go-ethereum/crypto.Keccak256Hash", []string{"proof"}, []string{"proof"})
 	})
+}
+
+// deadLoopAtEntry: b lies in a `for init; cond; post` loop whose condition compares loop variables that start at constants
+// and is false for those constants: the body never runs (the condition is evaluated before the first iteration).
+func deadLoopAtEntry(b *ssa.BasicBlock) bool {
+	for _, h := range b.Parent().Blocks {
+		if !h.Dominates(b) || h == b {
+			continue
+		}
+		iff, ok := h.Instrs[len(h.Instrs)-1].(*ssa.If)
+		if !ok {
+			continue
+		}
+		// b must be reached through the true edge only
+		if !(h.Succs[0] == b || h.Succs[0].Dominates(b)) || len(h.Succs[0].Preds) != 1 {
+			continue
+		}
+		bo, ok := iff.Cond.(*ssa.BinOp)
+		if !ok {
+			continue
+		}
+		initOf := func(v ssa.Value) (int64, bool) {
+			if k, ok := core.ConstInt(v); ok {
+				return k, true
+			}
+			ph, ok := v.(*ssa.Phi)
+			if !ok || ph.Block() != h {
+				return 0, false
+			}
+			var init ssa.Value
+			n := 0
+			for k, e := range ph.Edges {
+				if !h.Dominates(h.Preds[k]) {
+					init = e
+					n++
+				}
+			}
+			if n != 1 {
+				return 0, false
+			}
+			return core.ConstInt(init)
+		}
+		x, okx := initOf(bo.X)
+		y, oky := initOf(bo.Y)
+		if !okx || !oky {
+			continue
+		}
+		var holds bool
+		switch bo.Op {
+		case token.EQL:
+			holds = x == y
+		case token.NEQ:
+			holds = x != y
+		case token.LSS:
+			holds = x < y
+		case token.LEQ:
+			holds = x <= y
+		case token.GTR:
+			holds = x > y
+		case token.GEQ:
+			holds = x >= y
+		default:
+			continue
+		}
+		if !holds {
+			return true
+		}
+	}
+	return false
 }
